@@ -31,6 +31,11 @@ Part P (parameter driven by asynchronous references)
     with fresh function objects) fails in the same way is counted in the twin's class (the
     sharing is irrelevant); otherwise it forms a class of its own, marked ``samefn=1``.
 
+Part M (bounded/c10_multi.py): two allow_refs parameters of ONE object driven by asynchronous
+    references at the same time, and plain values assigned by a watcher / depends(watch=True) handler
+    running inside ``t.param.trigger(...)``; per-parameter form of the same three clauses
+    (``C10/multi/...``), built from tick-separated schedules that hold on the unchanged tree.
+
 Part R (reactive expression piping through coroutines)
     shapes  : r.rx.pipe(coro), r.rx.pipe(asyncgen), rx(bind(coro, r)), rx(bind(asyncgen, r))
     history : n root updates r=1..n, optionally read / tick after each, with or without
@@ -48,6 +53,7 @@ import os
 import warnings
 
 from bounded._api import Bounded, REPLAY_HEADER
+from bounded import c10_multi
 
 PROP = "C10"
 NPROC = max(2, min(14, (os.cpu_count() or 4) - 2))
@@ -795,7 +801,7 @@ def run(tier, seed):
               "R: shape in {r.rx.pipe(coro), r.rx.pipe(asyncgen), rx(bind(coro,r)), "
               "rx(bind(asyncgen,r))} x n root updates x {read after update} x {tick after update} "
               "x {.rx.watch} x {tick between completions} x every completion order of the pending "
-              "futures; distinct = configuration + order"),
+              "futures; distinct = configuration + order.  " + c10_multi.RULE),
         bound=("P: n<=%d assignments; all 2^(e-1) tick placements for words of e<=%s events, five "
                "tick modes (all/none/burst/after-A/after-R) above; generator futures out of order: "
                "%s; sequences with a shared function object: all of length <=%d%s, all tick "
@@ -804,7 +810,7 @@ def run(tier, seed):
                   "n<=3, five tick modes" if thorough else "n<=2, five tick modes",
                   3, " and those of length 4 with at most one generator assignment" if thorough else "",
                   "8 (n<=3) / 6 (n=4)" if thorough else "6",
-                  rx_n, 2520 if thorough else 90)))
+                  rx_n, 2520 if thorough else 90) + ".  " + c10_multi.bound_text(tier)))
 
     tasks = []
     for n in range(1, nmax + 1):
@@ -839,16 +845,21 @@ def run(tier, seed):
     for shape in SHAPES:
         for n in range(1, rx_n + 1):
             tasks.append(("R", (shape, n, 2520 if thorough else 90)))
+    # part M: two parameters of one object / plain value assigned by a handler (bounded/c10_multi.py)
+    for a in c10_multi.tasks(tier, seed):
+        tasks.append(("M", a))
 
     ctx = mp.get_context("fork")
     with ProcessPoolExecutor(max_workers=NPROC, mp_context=ctx) as ex:
-        futs = [ex.submit(_param_task if kind == "P" else _rx_task, a) for kind, a in tasks]
+        fns = {"P": _param_task, "R": _rx_task, "M": c10_multi.task}
+        futs = [ex.submit(fns[kind], a) for kind, a in tasks]
         results = [f.result() for f in futs]
 
     pclasses = {}
     rclasses = {}
+    mclasses = {}
     errs = left = trunc = 0
-    exhaustive = True
+    exhaustive = thorough      # quick samples the schedules of the longer sequences of part M
     for (kind, a), r in zip(tasks, results):
         B.evaluations += r["cases"]
         tag = repr(a)
@@ -862,7 +873,7 @@ def run(tier, seed):
         if kind == "R" and r["truncated"]:
             trunc += r["truncated"]
             exhaustive = False
-        tgt = pclasses if kind == "P" else rclasses
+        tgt = {"P": pclasses, "R": rclasses, "M": mclasses}[kind]
         for ck, ent in r["classes"].items():
             cur = tgt.get(ck)
             if cur is None:
@@ -889,6 +900,18 @@ def run(tier, seed):
         B.violation(clause, witness, detail="%s; %d failing schedules in this class" % (detail, cnt),
                     replay=rx_replay(cfg, clause, witness))
         B._seen[(clause, witness)]["count"] = cnt
+    for ck in sorted(mclasses):
+        size, detail, cnt, (assigns, how) = mclasses[ck]
+        clause = ck[0]
+        witness = "%s seq=%s sched=%s" % (" ".join(ck[1:]), size[2], size[3])
+        B.violation(clause, witness, detail="%s; %d failing schedules in this class" % (detail, cnt),
+                    replay=c10_multi.replay(assigns, how, size[3], clause, witness))
+        B._seen[(clause, witness)]["count"] = cnt
+    for v in B.violations:      # the replays run against the tree under check (default /repo)
+        if v.get("replay"):
+            v["replay"] = v["replay"].replace(
+                "sys.path.insert(0, '/repo')\n",
+                "sys.path.insert(0, __import__('os').environ.get('PYVC_REPO', '/repo'))   # the tree under check\n")
     B.note("event loops: one fresh loop per case, closed after cancelling leftover tasks and "
            "shutdown_asyncgens; messages handed to the loop exception handler: %d; tasks still "
            "pending at the end of a case (cancelled by the driver): %d" % (errs, left))
